@@ -125,3 +125,15 @@ def mut_self():
             (re.compile(r'(/\*@SPEC@\*/\{)'), r'\1 let ghost self0 = self; let mut this = self;', 1, r),
             (re.compile(r'\bself\.'), 'this.', None, r),
             (re.compile(r'\n(\s+)self\n'), r'\n\1this\n', None, r)]
+
+
+# R4 (general): construction of io errors has no effect on control flow
+IOERR_RULES = [
+    (re.compile(r'io::Error::(?:from|new)\((?:[^()]|\([^()]*\))*\)\.into\(\)'), 'Error::Io', None, 'R4-io-error-construction'),
+    (re.compile(r'io::Error::(?:from|new)\((?:[^()]|\([^()]*\))*\)'), 'Error::Io', None, 'R4-io-error-construction'),
+]
+# R12 (general): Ord::min / Ord::max on machine integers (no vstd specification)
+MINMAX_RULES = [
+    (re.compile(r'\b([A-Za-z_][A-Za-z0-9_.]*)\.min\(((?:[^()]|\([^()]*\))*)\)'), r'vmin(\1, \2)', None, 'R12-Ord::min'),
+    (re.compile(r'\b([A-Za-z_][A-Za-z0-9_.]*)\.max\(((?:[^()]|\([^()]*\))*)\)'), r'vmax(\1, \2)', None, 'R12-Ord::max'),
+]
